@@ -39,15 +39,19 @@ class _Resp:
         return False
 
 
-class _Opener:
-    raw_trailing = False
+SEEN = []          # every prepared request that reached the transport in this process (the replays are sequential)
 
-    def __init__(self):
-        self.seen = []
 
-    def open(self, request):
-        self.seen.append(request)
+def _intercept_transport():
+    """the requests are taken where they leave the package: urllib's OpenerDirector.open; build_opener returns a bare
+    OpenerDirector (the default one loads the system certificate store, about 30 ms per connection)"""
+    import urllib.request as ur
+
+    def _open(od, request, *a, **k):
+        SEEN.append(request)
         return _Resp(b'[]')
+    ur.build_opener = lambda *handlers: ur.OpenerDirector()
+    ur.OpenerDirector.open = _open
 
 
 _ENV = {}
@@ -96,9 +100,7 @@ def _env():
         def conn_c3(self):
             return self.get_conn()
 
-    # building a real urllib opener loads the system certificate store (about 30 ms per connection);
-    # the opener is replaced by a recorder anyway
-    conn_http._HttpConnImpl._make_opener = staticmethod(lambda is_https, if_http_debug=False: _Opener())
+    _intercept_transport()
     _ENV.update(ch=conn_http, RespAdapter=RespAdapter, HdrAdapter=HdrAdapter, Caller=Caller)
     return _ENV
 
@@ -196,7 +198,8 @@ DATA = {
 def replay_history(hist):
     e = _env()
     ch = e['ch']
-    conns, openers, callers = [], {}, []
+    conns, callers = [], []
+    rawflag, caller_raw = [], []     # per connection / caller: its root was given its address inside a tuple / list / dict and with a trailing '/'
     shared = {}     # one Python list object per distinct list of adapters, passed to every derivation that uses it
 
     def shared_list(args):
@@ -206,21 +209,20 @@ def replay_history(hist):
             shared[key] = (lst, list(lst))
         return shared[key][0]
 
-    def probe(conn, exp, where):
-        op = conn.conn_impl.opener
+    def probe(conn, exp, where, raw_trailing):
         params = {'q': 'a b', 'z': '1&2'}
         hdr = {'H': '1'}
         p0, h0 = copy.deepcopy(params), copy.deepcopy(hdr)
-        n0 = len(op.seen)
+        n0 = len(SEEN)
         try:
             ret = conn.get('/x', params=params, headers=hdr)
         except Exception as ex:
             return '%s: probe request raised %s: %s' % (where, type(ex).__name__, str(ex)[:100])
-        if len(op.seen) != n0 + 1:
-            return '%s: %d requests reached the opener for one call' % (where, len(op.seen) - n0)
+        if len(SEEN) != n0 + 1:
+            return '%s: %d requests reached the opener for one call' % (where, len(SEEN) - n0)
         if params != p0 or hdr != h0:
             return '%s: caller objects were modified: params %r headers %r' % (where, params, hdr)
-        r = _check_request(op.seen[-1], ret, exp, p0, h0, op.raw_trailing)
+        r = _check_request(SEEN[-1], ret, exp, p0, h0, raw_trailing)
         if r is not None:
             return '%s: %s' % (where, r)
         # raw_response=True: the response object itself goes through the response processors
@@ -241,9 +243,9 @@ def replay_history(hist):
             conn.get('x')
         except Exception as ex:
             return '%s: probe request with a relative path raised %s: %s' % (where, type(ex).__name__, str(ex)[:100])
-        u = urlsplit(op.seen[-1].full_url)
+        u = urlsplit(SEEN[-1].full_url)
         segs = [x for x in u.path.split('/') if x != '']
-        want_rel = '/x' if list(exp['rel']) == ['x'] else ('/' if op.raw_trailing else '') + '/' + '/'.join(exp['rel'])
+        want_rel = '/x' if list(exp['rel']) == ['x'] else ('/' if raw_trailing else '') + '/' + '/'.join(exp['rel'])
         if u.path != want_rel:
             return '%s: relative request path "x" goes to %r, address + path is %r' % (where, u.path, want_rel)
         if segs != list(exp['rel']):
@@ -261,12 +263,12 @@ def replay_history(hist):
                 form = (len(hist) + n + len(st['addr'])) % 4
                 data = (st['addr'], (st['addr'],), {'address': st['addr']}, [st['addr']])[form]
                 c = ch.HttpConn(data)
-                c.conn_impl.opener = _Opener()
-                c.conn_impl.opener.raw_trailing = form != 0 and st['addr'].endswith('/')
                 conns.append(c)
+                rawflag.append(form != 0 and st['addr'].endswith('/'))
             elif op == 'wrap':
                 ads = shared_list(st['args']) if st['aslist'] else [_adapter(a) for a in st['args']]
                 conns.append(ch.HttpConn(conns[st['parent'] - 1], adapters=ads if st['aslist'] else ads[0]))
+                rawflag.append(rawflag[st['parent'] - 1])
             elif op == 'authwrap':
                 a = st['auth']
                 p = conns[st['parent'] - 1]
@@ -276,10 +278,13 @@ def replay_history(hist):
                     conns.append(ch.TokenAuthConn(p, a['tok'], 'descr'))
                 else:
                     conns.append(ch.ClientAuthConn(p, 'cname', _cred(a['user']), a['pw']))
+                rawflag.append(rawflag[st['parent'] - 1])
             elif op == 'newcaller':
                 callers.append(e['Caller'](conns[st['conn'] - 1]))
+                caller_raw.append(rawflag[st['conn'] - 1])
                 if st['wrapped']:
                     conns.append(callers[-1].http_conn)
+                    rawflag.append(caller_raw[-1])
                 elif callers[-1].http_conn is not conns[st['conn'] - 1]:
                     return '%s: machinery: the caller does not use the plain connection it was given' % where, ['machinery']
             elif op == 'clone':
@@ -293,26 +298,28 @@ def replay_history(hist):
                 else:
                     cl = m.clone()
                 callers.append(cl)
+                caller_raw.append(caller_raw[st['caller'] - 1])
                 conns.append(cl.http_conn)
+                rawflag.append(caller_raw[-1])
             elif op == 'getconn':
                 m = callers[st['caller'] - 1]
                 c = getattr(m, 'conn_' + st['comp'])()
                 if st['result'] == len(conns) + 1:
                     conns.append(c)
+                    rawflag.append(caller_raw[st['caller'] - 1])
                 else:
-                    extra_probe = (c, st['result'])
+                    extra_probe = (c, st['result'], caller_raw[st['caller'] - 1])
             elif op == 'addadapter':
                 conns[st['conn'] - 1].add_adapter(_adapter(st['adapter']))
             elif op == 'request':
                 conn = conns[st['conn'] - 1]
                 data, body, ctype = DATA[st['data']]
                 d0 = copy.deepcopy(data)
-                opn = conn.conn_impl.opener
                 hdr = {'H': '1'}
                 ret = getattr(conn, st['method'])('/x', data=data, headers=hdr)
-                req = opn.seen[-1]
+                req = SEEN[-1]
                 exp = st['exp'][st['conn'] - 1]
-                r = _check_request(req, ret, exp, None, {'H': '1'}, opn.raw_trailing)
+                r = _check_request(req, ret, exp, None, {'H': '1'}, rawflag[st['conn'] - 1])
                 if r:
                     return '%s: %s' % (where, r), []
                 if req.get_method() != st['method'].upper():
@@ -331,11 +338,11 @@ def replay_history(hist):
         if len(conns) != len(st['exp']):
             return '%s: machinery mismatch in number of connections' % where, ['machinery']
         for i, conn in enumerate(conns):
-            r = probe(conn, st['exp'][i], '%s, probe through connection #%d' % (where, i + 1))
+            r = probe(conn, st['exp'][i], '%s, probe through connection #%d' % (where, i + 1), rawflag[i])
             if r:
                 return r, tags
         if extra_probe:
-            r = probe(extra_probe[0], st['exp'][extra_probe[1] - 1], '%s, probe through the returned connection' % where)
+            r = probe(extra_probe[0], st['exp'][extra_probe[1] - 1], '%s, probe through the returned connection' % where, extra_probe[2])
             if r:
                 return r, tags
     return None, []
